@@ -88,6 +88,6 @@ def r_encaps(f):
             R.fail(b.ident, "ret:&mut Vec", "%s returns %s" % (b.ident, rt), b.where())
     n += 1
     R.inst("<mir>", "no body returns a `&mut Vec`", nb == 0)
-    R.require_floor(n, 30, "fields / scans")
+    R.require_floor(n, 25, "fields / scans")
     R.require_floor(ns, 100, "exported signatures")
     return R, n
